@@ -238,7 +238,8 @@ def post_relocated(ctx, a, result, old):
         return None
     if g.dtype.kind not in "fiu" or b.dtype.kind not in "fiu" or not (np.isfinite(g).all() and np.isfinite(b).all()):
         return None
-    res, info = judge(g, b, np.asarray(result))
+    # integer-typed coordinates are coordinates too; "bit-for-bit unchanged" is judged on their float64 values
+    res, info = judge(g.astype(float), b.astype(float), np.asarray(result, dtype=float))
     for name, (ok, w) in res.items():
         if not ok:
             return False, dict(w, failed=name, grid=g)
@@ -536,6 +537,32 @@ def run_case(ctx, key, m, rng, fam, ssz, subname, full=True):
         ok2, outm = ctx.guarded("mesh.no_exception", lambda: br.relocated_mesh_grid_from(grid=grid_obj, mesh_grid=aa.Grid2DIrregular(values=verts.copy())))
         if ok2:
             apply_judgement(ctx, "mesh", verts, border, _np(outm), mask=m, sub_sizes=ssz, entry="BorderRelocator.relocated_mesh_grid_from")
+        # history on ONE relocator object (datasets hold it as a cached property): after relocating data grid A, the mesh
+        # vertices of ANOTHER source-plane configuration B must be judged against B's border, not a remembered one
+        srcB, _ = distort(rng, image_grid)
+        srcB = srcB * float(rng.uniform(0.4, 2.5)) + rng.normal(size=2) * 0.5
+        selB = rng.random(len(srcB)) < 0.3
+        pivB = srcB[sbs].mean(axis=0)
+        srcB[selB] = pivB + (srcB[selB] - pivB) * rng.uniform(1.5, 8.0, size=(int(selB.sum()), 1))
+        vertsB = mesh_vertices(rng, srcB, sbs)
+        okB, outB = ctx.guarded("mesh.no_exception", lambda: br.relocated_mesh_grid_from(grid=aa.Grid2DIrregular(values=srcB.copy()),
+                                                                                         mesh_grid=aa.Grid2DIrregular(values=vertsB.copy())))
+        if okB:
+            apply_judgement(ctx, "mesh", vertsB, srcB[sbs].copy(), _np(outB), mask=m, sub_sizes=ssz,
+                            entry="BorderRelocator.relocated_mesh_grid_from(second configuration on the same relocator)")
+            ctx.monitors["history.second_configuration_same_relocator"] += 1
+        # integer-typed coordinates (np.mgrid lattices, literal int tuples) are coordinates too: the rule must hold for them
+        # (lattice around the border only: the source grid may contain a point 1e5 away)
+        lo_, hi_ = np.floor(border.min(0)).astype(int) - 4, np.ceil(border.max(0)).astype(int) + 4
+        hi_ = np.minimum(hi_, lo_ + 14)
+        yy, xx = np.mgrid[lo_[0]:hi_[0] + 1:2, lo_[1]:hi_[1] + 1:2]
+        ivert = np.stack([yy.ravel(), xx.ravel()], axis=1)[:64]
+        if ivert.dtype.kind == "i" and len(ivert):
+            okI, outI = ctx.guarded("mesh.no_exception", lambda: br.relocated_mesh_grid_from(grid=grid_obj, mesh_grid=aa.Grid2DIrregular(values=ivert.copy())))
+            if okI:
+                apply_judgement(ctx, "mesh", ivert.astype(float), border, np.asarray(_np(outI), float), mask=m, sub_sizes=ssz,
+                                entry="BorderRelocator.relocated_mesh_grid_from(integer-typed vertices)")
+                ctx.monitors["input.integer_typed_coordinates"] += 1
         if ok:
             which = int(rng.integers(2))
             if which == 0:
